@@ -33,7 +33,10 @@ class Unit:
     """one function under contract, discharged in one CBMC run"""
     def __init__(self, name, inst, target, mode='bp', replace=(), unwind=None, extra=(), bounded=None, harness=None,
                  uchecks=False, timeout=None, clause=None, defines=(), object_bits=None, nondet_static=False, no_canary=False,
-                 covers=None, unwind_loops=None, tier='quick', lemma=None):
+                 covers=None, unwind_loops=None, tier='quick', lemma=None, gi_extra=(), waive=()):
+        self.waive = list(waive)        # regexes on CBMC check descriptions that are NOT obligations of this unit (e.g. --conversion-check
+                                        # on signed<->unsigned integer conversions, which are well defined / modular in C++); a matching
+                                        # FAILED check is listed under 'waived' in the evidence instead of failing the unit
         self.name = name; self.inst = inst; self.target = target; self.mode = mode
         self.replace = list(replace); self.unwind = unwind; self.extra = list(extra)
         self.bounded = bounded          # None = unbounded proof; else text stating the bound
@@ -49,6 +52,7 @@ class Unit:
                                                        # unwound completely before dfcc (constant trip count; else set bounded=)
         self.tier = tier
         self.lemma = lemma
+        self.gi_extra = list(gi_extra)  # extra goto-instrument options (e.g. --no-malloc-may-fail for heap units: C library model options are fixed when dfcc links the library)
 
 class Lemma:
     def __init__(self, name, file, kind='lean', clause=None):
@@ -156,6 +160,8 @@ class Run:
         t0 = time.time()
         try:
             info = self.build_inst(unit.inst, unit.defines)
+            if unit.lemma:
+                return self.run_lemma_unit(unit, info, res, t0)
             cname = self.resolve_target(info, unit.target)
             res['cname'] = cname
             res['source'] = '%s:%s' % (info['meta']['functions'][cname]['file'], info['meta']['functions'][cname]['line'])
@@ -169,12 +175,15 @@ class Run:
             rc, out, err, dt = sh(['goto-cc'] + defs + ['-I', VERIF, hc, '-o', os.path.join(ud, 'h.gb')], timeout=300)
             if rc != 0: raise Undecided('goto-cc failed for %s: %s' % (unit.name, (err + out)[-3000:]))
             # code loops without a loop contract must be unwound before dfcc (constant-trip loops only; see README)
+            rc, cg, err, dt = sh(['goto-instrument', '--reachable-call-graph', os.path.join(ud, 'h.gb')], timeout=120)
+            reach = set(re.findall(r'-> (\S+)', cg)) | {cname}
             rc, out, err, dt = sh(['goto-instrument', '--show-loops', os.path.join(ud, 'h.gb')], timeout=120)
             fns = info['meta']['functions']
             uws = []; res['unwound_code_loops'] = []
             for m in re.finditer(r'^Loop (\S+)\.(\d+):\n\s+file (\S+) line (\d+) function (\S+)', out, re.M):
                 lf, lk, lfile, lline = m.group(1), int(m.group(2)), m.group(3), int(m.group(4))
                 if lf not in fns: continue          # spec-header function (pre_/post_/spec_): unwound by cbmc below
+                if lf not in reach: continue        # not in the call closure of the target
                 f = fns[lf]
                 clines = set(l[2] for l in f['loops'] if l[0] in f.get('contract_loops', []))
                 if lline in clines: continue
@@ -192,6 +201,7 @@ class Run:
                 src_gb = os.path.join(ud, 'hu.gb')
             gi = ['goto-instrument', '--dfcc', 'main', '--enforce-contract', cname]
             for r in reps: gi += ['--replace-call-with-contract', r]
+            gi += unit.gi_extra
             gi += ['--apply-loop-contracts', src_gb, os.path.join(ud, 'hi.gb')]
             rc, out, err, dt = sh(gi, timeout=600, mem_gb=16)
             if rc != 0: raise Undecided('goto-instrument failed for %s: %s' % (unit.name, (err + out)[-3000:]))
@@ -226,6 +236,9 @@ class Run:
                 if 'VERIF_CANARY' in desc:
                     canary_failed = r.get('status') == 'FAILURE'
                     continue
+                if r.get('status') != 'SUCCESS' and any(re.search(w, desc) for w in getattr(unit, 'waive', ())):
+                    res.setdefault('waived', []).append('%s: %s' % (r['property'], desc))
+                    continue
                 names.append(r['property'])
                 res['obligations'] += 1
                 if r.get('status') == 'SUCCESS': res['discharged'] += 1
@@ -245,6 +258,51 @@ class Run:
         res['seconds'] = round(time.time() - t0, 2)
         self.log(unit.name, res['status'], '%d/%d' % (res['discharged'], res['obligations']), '%.1fs' % res['seconds'], res.get('why', ''))
         return res
+
+def _run_lemma_unit(self, unit, info, res, t0):
+    """lemma over spec functions: `int lemma_x(params)` defined in spec/<inst>.h must return 1 for all inputs.
+    No code of /repo is involved; loops (bounded by CAP) are unwound completely with unwinding assertions."""
+    hdr = open(os.path.join(VERIF, 'spec', unit.inst + '.h')).read()
+    m = re.search(r'\b%s\s*\(([^)]*)\)\s*\{' % re.escape(unit.lemma), hdr)
+    if not m: raise Undecided('must-fire: lemma %s not found in spec/%s.h' % (unit.lemma, unit.inst))
+    ps = [p.strip() for p in m.group(1).split(',') if p.strip() and p.strip() != 'void']
+    names = [re.match(r'^(.*?)(\w+)$', p).group(2) for p in ps]
+    ud = os.path.join(self.work, 'u_' + re.sub(r'\W+', '_', unit.name)); os.makedirs(ud, exist_ok=True)
+    lines = ['#include "%s"' % info['gen'], 'int main(void) {'] + ['  %s;' % p for p in ps]
+    lines += ['  __CPROVER_assert(%s(%s), "lemma %s");' % (unit.lemma, ', '.join(names), unit.lemma),
+              '  __CPROVER_assert(0, "VERIF_CANARY reachability of the end of the harness");', '  return 0;', '}']
+    hc = os.path.join(ud, 'h.c'); open(hc, 'w').write('\n'.join(lines))
+    defs = ['-DVERIF_CBMC'] + (['-DVERIF_UF'] if unit.mode == 'uf' else [])
+    rc, out, err, dt = sh(['goto-cc'] + defs + ['-I', VERIF, hc, '-o', os.path.join(ud, 'h.gb')], timeout=300)
+    if rc != 0: raise Undecided('goto-cc failed for %s: %s' % (unit.name, (err + out)[-2000:]))
+    cb = ['cbmc', os.path.join(ud, 'h.gb'), '--json-ui', '--trace', '--unwind', str(unit.unwind or 10), '--unwinding-assertions'] + CBMC_CHECKS + unit.extra
+    tmo = unit.timeout or (300 if self.tier == 'quick' else 1800)
+    rc, out, err, dt = sh(cb, timeout=tmo, mem_gb=12)
+    res['solver_seconds'] = round(dt, 2); res['checker_cmd'] = ' '.join(['cbmc'] + cb[2:]); res['cname'] = unit.lemma
+    res['source'] = 'spec/%s.h' % unit.inst
+    if rc == -9: raise Undecided('cbmc timeout on lemma %s' % unit.name)
+    try: msgs = json.loads(out)
+    except Exception: raise Undecided('cbmc output unparsable for %s' % unit.name)
+    results = None
+    for mm in msgs:
+        if isinstance(mm, dict) and 'result' in mm: results = mm['result']
+    if results is None: raise Undecided('cbmc produced no result for %s: %s' % (unit.name, out[-800:]))
+    canary = False; names_ = []
+    for r in results:
+        if 'VERIF_CANARY' in r.get('description', ''):
+            canary = r.get('status') == 'FAILURE'; continue
+        names_.append(r['property']); res['obligations'] += 1
+        if r.get('status') == 'SUCCESS': res['discharged'] += 1
+        else: res['failed'].append({'property': r['property'], 'description': r.get('description', ''), 'status': r.get('status'),
+                                    'location': r.get('sourceLocation', {}), 'trace': r.get('trace')})
+    if not canary: raise Undecided('vacuity: canary unreachable in lemma %s' % unit.name)
+    res['names'] = names_; res['samples'] = ['%s: lemma over spec functions' % unit.lemma]
+    res['status'] = 'proved' if not res['failed'] else 'failed'
+    res['info'] = info; res['dir'] = ud; res['is_lemma'] = True
+    res['seconds'] = round(time.time() - t0, 2)
+    self.log(unit.name, res['status'], '%d/%d' % (res['discharged'], res['obligations']), '%.1fs' % res['seconds'])
+    return res
+Run.run_lemma_unit = _run_lemma_unit
 
 def strip_targs(q):
     out = ''; depth = 0
@@ -273,6 +331,7 @@ def value_to_c(v):
         if d in ('FALSE', 'false'): return '0'
         t = v.get('type', '')
         if n == 'integer':
+            if d[-1:].isalpha(): return d          # cbmc already printed a suffix (e.g. '4u', '2ul')
             if 'unsigned' in t and ('long' in t): return d + 'UL'
             if 'long' in t: return d + 'L'
             if 'unsigned' in t: return d + 'U'
@@ -404,8 +463,10 @@ def mutate_value(v, rng, p=0.5):
         return dict(v, data=str(rng.choice([0.0, 1.0, -1.0, 0.5, 2.0, 1e-6, 1e6, 3.0])))
     return v
 
-def native_replay(run_dir, info, entry, hdr, cand_list, spec_hdr_path):
+def native_replay(run_dir, info, entry, hdr, cand_list, spec_hdr_path, exclude=()):
     """cand_list: list of (inputs: {param: C-init}, ghosts: {name: C-init}); first one is the verifier's counterexample.
+    exclude: known-finding regions (C predicates over the parameters) -- candidates inside are skipped, as the verifier's
+    contract has `requires !(region)` for them.
     returns (verdict, output, index_of_failing_candidate)"""
     f = info['meta']['functions'][entry]
     post_ps = hdr['post'].get(entry) or hdr['pre'].get(entry)
@@ -440,6 +501,8 @@ def native_replay(run_dir, info, entry, hdr, cand_list, spec_hdr_path):
     pre = ''
     if entry in hdr['pre']:
         pre = '    if (!pre_%s(%s)) { if (c == 0) std::puts("REPLAY: precondition false for the verifier counterexample (UF / invariant-havoc artefact)"); continue; }' % (entry, ', '.join(args))
+    for rg in exclude:
+        pre += '\n    if (%s) continue;   /* inside a known-finding region */' % rg
     post = ''
     if entry in hdr['post']:
         post = '    if (!post_%s(%s)) { std::printf("REPLAY: postcondition VIOLATED on the real code, candidate %%lu\\n", c); return 1; }' % (entry, ', '.join(args + ['ret']))
@@ -515,6 +578,11 @@ def _main(a, pid, run, seed, t0):
     findings, fixed = load_known(pid)
 
     if a.replay:
+        return do_replay_file(a.replay, run, prop)
+    import glob
+    for f in glob.glob(os.path.join(VERIF, 'replays', pid + '_*')):
+        os.unlink(f)
+    if False:
         return do_replay_file(a.replay, run, prop)
 
     # ---- known findings: replay witnesses against the real code first
@@ -593,6 +661,12 @@ def _main(a, pid, run, seed, t0):
         entry = r['cname']
         # group failed obligations: one replay per unit (first failing obligation with a trace)
         fl = r['failed'][0]
+        if r.get('is_lemma'):
+            rp = os.path.join(VERIF, 'replays', '%s_%s_lemma.json' % (pid, re.sub(r'\W+', '_', r['unit'])))
+            json.dump({'property': pid, 'unit': r['unit'], 'inst': r['inst'], 'entry': entry, 'failed_obligation': fl['property'],
+                       'description': fl['description'], 'native_replay': 'not-applicable (lemma over spec functions)',
+                       'cbmc_trace_excerpt': trace_excerpt(fl.get('trace'))}, open(rp, 'w'), indent=1)
+            violations.append((r, rp, 'lemma')); continue
         fn = info['meta']['functions'][entry]
         ghosts = set(g[1] for g in hdr['ghosts'])
         vals = inputs_from_trace(fl.get('trace'), fn['params'], ghosts)
@@ -608,7 +682,8 @@ def _main(a, pid, run, seed, t0):
                 mv = {k: mutate_value(v, rng, p) for k, v in vals.items()}
                 cands.append(({k: value_to_c(v) for k, v in mv.items() if not k.startswith('ghost:')},
                               {k[6:]: value_to_c(v) for k, v in mv.items() if k.startswith('ghost:')}))
-            verdict, out, idx = native_replay(run.work, info, entry, hdr, cands, os.path.join(VERIF, 'spec', r['inst'] + '.h'))
+            verdict, out, idx = native_replay(run.work, info, entry, hdr, cands, os.path.join(VERIF, 'spec', r['inst'] + '.h'),
+                                              exclude=[k['region'] for k in kf_active if k.get('inst') == r['inst'] and k.get('entry') == entry])
             if verdict == 'confirmed' and idx is not None:
                 inputs, gvals = cands[idx]
                 out = ('failing input = candidate %d (%s)\n' % (idx, "the verifier's counterexample" if idx == 0 else 'found by seeded mutation of the counterexample')) + out
@@ -650,7 +725,7 @@ def build_one(run, inst, defs):
 def essential(names):
     out = []
     for n in names:
-        if re.search(r'\.(postcondition|precondition|loop_invariant_base|loop_invariant_step|loop_decreases|loop_assigns|assigns)\.\d+$', n) \
+        if re.search(r'\.(postcondition|precondition|loop_invariant_base|loop_invariant_step|loop_decreases|loop_assigns|assigns|memory-leak|precondition_instance)\.\d+$', n) \
                 or re.search(r'\.assertion\.\d+$', n) and not n.startswith('__CPROVER'):
             out.append(re.sub(r'\.\d+$', '', n))
     return out
@@ -682,7 +757,8 @@ def write_evidence(pid, tier, seed, prop, results, lemma_results, kf_active, fix
                     'status': r['status'], 'obligations': r['obligations'], 'discharged': r['discharged'],
                     'backend': 'cbmc 6.11.0 --dfcc (SAT: minisat2 built in)', 'solver_seconds': r.get('solver_seconds'),
                     'wall_seconds': r['seconds'], 'bounded': r['bounded'], 'clause': r.get('clause'), 'why': r.get('why'),
-                    'code_loops_unwound_completely': r.get('unwound_code_loops', [])})
+                    'code_loops_unwound_completely': r.get('unwound_code_loops', []),
+                    'waived_checks': r.get('waived', [])})
     samples = []
     for r in results: samples += r.get('samples', [])[:2]
     ev = {
